@@ -1,5 +1,6 @@
 import RQ.Lemmas.Refine
 import RQ.Spec.Backups
+import RQ.Lemmas.RefineBackup
 /-!
 # C08 — quilt metadata is exact: backups allow popping, applied-patches matches the tree
 
@@ -26,13 +27,73 @@ theorem C08_calls (w : World) (mem : Mem) (applied : List Status) (downTo : Nat)
       (match saveBackups w calls with
        | .error e => .error e
        | .ok w' => .ok (w', mem')) := by
-  sorry
+  induction applied generalizing w mem calls with
+  | nil =>
+    rw [backupCalls] at hc
+    cases hc
+    rfl
+  | cons s rest ih =>
+    rw [backupCalls] at hc
+    rw [rollbackAndSaveBackups]
+    by_cases hlt : s.index < downTo
+    · rw [if_pos hlt] at hc ⊢
+      cases hc
+      rfl
+    · rw [if_neg hlt] at hc ⊢
+      cases hr : rollbackOne mem s with
+      | error e => rw [hr] at hc; cases hc
+      | ok r =>
+        obtain ⟨mem1, file⟩ := r
+        rw [hr] at hc
+        simp only at hc ⊢
+        cases hrn : s.fp.rename with
+        | false =>
+          rw [hrn] at hc
+          simp only [Bool.false_eq_true, if_false] at hc ⊢
+          cases hrest : backupCalls mem1 rest downTo with
+          | error e => rw [hrest] at hc; cases hc
+          | ok r2 =>
+            obtain ⟨c, mm⟩ := r2
+            rw [hrest] at hc
+            cases hc
+            simp only [List.cons_append, List.nil_append, saveBackups]
+            cases saveBackup w s.patchName s.target file with
+            | error e => rfl
+            | ok w1 => exact ih w1 mem1 c hrest
+        | true =>
+          rw [hrn] at hc
+          simp only [if_true] at hc ⊢
+          cases hnew : s.fp.new with
+          | none => rw [hnew] at hc; cases hc
+          | some newName =>
+            rw [hnew] at hc
+            simp only at hc ⊢
+            cases hg : mem1.get newName with
+            | none => rw [hg] at hc; cases hc
+            | some nf =>
+              rw [hg] at hc
+              simp only at hc ⊢
+              cases hrest : backupCalls mem1 rest downTo with
+              | error e => rw [hrest] at hc; cases hc
+              | ok r2 =>
+                obtain ⟨c, mm⟩ := r2
+                rw [hrest] at hc
+                cases hc
+                simp only [List.cons_append, List.nil_append, saveBackups]
+                cases saveBackup w s.patchName s.target file with
+                | error e => rfl
+                | ok w1 =>
+                  simp only
+                  cases saveBackup w1 s.patchName newName nf with
+                  | error e => rfl
+                  | ok w2 => exact ih w2 mem1 c hrest
 
 /-- **C08 (window)**: with `--backup-count n` exactly the file patches of the last `n` applied patches are
 backed up (`all`: every one) -/
 theorem C08_window (final : Nat) (n : Nat) (idx : Nat) (h : idx < final) :
     (idx < (if final > n then final - n else 0) ↔ idx + n < final) := by
-  sorry
+  have _ := h
+  split <;> omega
 
 /-- **C08 (modes)**: with `--backup never`, and with `onfail` when the whole range applied, the push
 performs no backup write: the world after `applyPatches` is the world after saving files and rejects -/
@@ -49,7 +110,28 @@ theorem C08_modes (w : World) (cfg : Cfg) (range : List Series.Entry) (st : St) 
            match saveRejFiles w2 rejs with
            | .error e => .error e
            | .ok w3 => .ok (w3, final)) := by
-  sorry
+  have hcond : (cfg.backup == .always || (cfg.backup == .onfail && final != range.length)) = false := by
+    rcases hm with hm | ⟨hm, hf⟩
+    · rw [hm]; rfl
+    · rw [hm, hf]; simp
+  unfold applyPatches
+  rw [hl]
+  simp only [hd, Bool.false_eq_true, if_false]
+  cases saveAll w st.mem [] with
+  | error e => rfl
+  | ok r =>
+    obtain ⟨w1, dirs⟩ := r
+    simp only
+    cases cleanAll w1 dirs with
+    | error e => rfl
+    | ok w2 =>
+      simp only
+      cases saveRejFiles w2 rejs with
+      | error e => rfl
+      | ok w3 =>
+        simp only
+        rw [hcond]
+        simp
 
 /-- **C08 (content)**: after a real push whose application loop applied `k` patches, the backup that
 stays on disk for patch number `j` (in the backup window) and file `name` holds that file exactly as
@@ -62,7 +144,9 @@ theorem C08_backup_is_prestate (fs : FS) (cfg : Cfg) (range : List Series.Entry)
     (j : Nat) (name : Bytes) (f : FileSt Bytes) (hlast : lastCall j name calls = some f) :
     downTo ≤ j ∧ j < k ∧
     ∃ t rr, applyRange fs cfg (range.take j) 0 [] = .ok (t, j, rr) ∧ look t fs name = .ok (absOf f) := by
-  sorry
+  have hst : Stack fs cfg range k st.applied st.mem :=
+    applyLoop_stack range hd range [] 0 {} st [] [] k rejs rfl rfl rfl (SameTree.refl fs _) memDE_nil rfl hl
+  exact stack_calls k st.applied st.mem st.mem hst (Ext.refl _ _) calls mem' hc j name f hlast
 
 /-- every file patch of an applied patch in the window gets its backup: the undo never aborts -/
 theorem C08_backups_total (fs : FS) (cfg : Cfg) (range : List Series.Entry) (st : St) (k : Nat)
@@ -70,7 +154,9 @@ theorem C08_backups_total (fs : FS) (cfg : Cfg) (range : List Series.Entry) (st 
     (downTo : Nat) :
     ∃ calls mem', backupCalls st.mem st.applied downTo = .ok (calls, mem') ∧
       ∀ s ∈ st.applied, downTo ≤ s.index → ∃ f, (s.index, s.patchName, s.target, f) ∈ calls := by
-  sorry
+  have hst : Stack fs cfg range k st.applied st.mem :=
+    applyLoop_stack range hd range [] 0 {} st [] [] k rejs rfl rfl rfl (SameTree.refl fs _) memDE_nil rfl hl
+  exact stack_total k st.applied st.mem st.mem hst (Ext.refl _ _)
 
 #print axioms C08_calls
 #print axioms C08_window
